@@ -9,6 +9,7 @@
 //	out    interop: library stream decoded by the reference decoder of the format
 //	in     interop: reference-encoded stream decoded by the library reader
 //	ovl    overlapping writers / readers (all opened before use) after each disturbance
+//	cfg    Codec values of one kind with different options interleaved: each emits its own pristine bytes
 //	hist   history independence of pooled readers/writers (after normal and after failed streams)
 //	srcerr underlying reader fails after k bytes: error or the full payload, never wrong data
 //	stress many goroutines opening/closing pooled readers and writers in tight loops
@@ -29,6 +30,7 @@ import (
 	"io"
 	"math/rand"
 	"os"
+	"os/exec"
 	"strconv"
 	"strings"
 	"sync"
@@ -193,6 +195,57 @@ type piecewise struct {
 	failAt   int  // ≥ 0: after that many bytes return failErr
 	calls    int
 	lastZero bool
+}
+
+// scriptSrc is Model/Source.lean's `Src` in Go: the next answer ⟨n, eof⟩ gives min(n, len(buf), remaining) bytes
+// and io.EOF together with them when it delivers the last byte and eof is set; after the script: as much as fits,
+// EOF on a later call.
+type scriptSrc struct {
+	data   []byte
+	script [][2]int
+}
+
+func (s *scriptSrc) Read(b []byte) (int, error) {
+	if len(s.data) == 0 {
+		return 0, io.EOF
+	}
+	if len(s.script) == 0 {
+		n := copy(b, s.data)
+		s.data = s.data[n:]
+		return n, nil
+	}
+	a := s.script[0]
+	s.script = s.script[1:]
+	k := a[0]
+	if k > len(b) {
+		k = len(b)
+	}
+	last := len(s.data) <= k
+	n := copy(b[:k], s.data)
+	s.data = s.data[n:]
+	if a[1] == 1 && last {
+		return n, io.EOF
+	}
+	return n, nil
+}
+
+func genScript(r *rand.Rand, total int) ([][2]int, string) {
+	var sc [][2]int
+	var parts []string
+	n := r.Intn(40)
+	for i := 0; i < n; i++ {
+		k := []int{0, 1, 7, 1000, 1024, 5000, 31744, 32768, 40000}[r.Intn(9)]
+		if k == 0 && i > 0 && sc[i-1][0] == 0 {
+			k = 3
+		}
+		e := r.Intn(2)
+		sc = append(sc, [2]int{k, e})
+		parts = append(parts, fmt.Sprintf("%d:%d", k, e))
+	}
+	if len(parts) == 0 {
+		return sc, "-"
+	}
+	return sc, strings.Join(parts, ",")
 }
 
 var errSource = errors.New("source failed")
@@ -523,6 +576,106 @@ func overlapping(r *rand.Rand, c compress.Codec, name string, ps [][]byte) strin
 	return res
 }
 
+// ---------------------------------------------------------------- configurations of one codec kind
+
+// codecOfSpec builds a fresh Codec VALUE for a textual configuration: gzip:<level> zstd:<level>
+// snappy:<compression 0..3>:<framing 0|1> lz4
+func codecOfSpec(spec string) compress.Codec {
+	f := strings.Split(spec, ":")
+	atoi := func(i int) int { v, _ := strconv.Atoi(f[i]); return v }
+	switch f[0] {
+	case "gzip":
+		return &gzip.Codec{Level: atoi(1)}
+	case "zstd":
+		return &zstd.Codec{Level: atoi(1)}
+	case "snappy":
+		return &snappy.Codec{Compression: snappy.Compression(atoi(1)), Framing: snappy.Framing(atoi(2))}
+	case "lz4":
+		return &lz4.Codec{}
+	}
+	return nil
+}
+
+func configSpecs() map[string][]string {
+	m := map[string][]string{
+		"gzip": {"gzip:0", "gzip:1", "gzip:6", "gzip:9", "gzip:-2"},
+		"zstd": {"zstd:0", "zstd:1", "zstd:7", "zstd:12"},
+		"lz4":  {"lz4"},
+	}
+	for c := 0; c < 4; c++ {
+		for f := 0; f < 2; f++ {
+			m["snappy"] = append(m["snappy"], fmt.Sprintf("snappy:%d:%d", c, f))
+		}
+	}
+	return m
+}
+
+// pristine: what a process that never used any codec before produces for this configuration and payload (one
+// Write call): the driver re-executes itself, `c16 pristine <spec>`, payload on stdin, compressed bytes on stdout
+func pristine(spec string, p []byte) ([]byte, error) {
+	cmd := exec.Command(os.Args[0], "pristine", spec)
+	cmd.Stdin = bytes.NewReader(p)
+	return cmd.Output()
+}
+
+func pristineMain(spec string) {
+	p, _ := io.ReadAll(os.Stdin)
+	c := codecOfSpec(spec)
+	if c == nil {
+		os.Exit(2)
+	}
+	s, err := compressChunks(c, p, []int{len(p)})
+	if err != nil {
+		os.Exit(3)
+	}
+	os.Stdout.Write(s)
+}
+
+// configs: Codec values of one kind with different options used interleaved in one process; the output of each
+// must be that configuration's own pristine output whatever the others put into the pools
+func configs(r *rand.Rand) {
+	kinds := []string{"gzip", "snappy", "zstd", "lz4"}
+	specs := configSpecs()
+	for _, kind := range kinds {
+		p := payload(r, 2, 40000+r.Intn(30000))
+		want := map[string][]byte{}
+		vals := map[string]compress.Codec{}
+		for _, sp := range specs[kind] {
+			w, err := pristine(sp, p)
+			if err != nil {
+				emit(fmt.Sprintf("cfg %s %s %s -", sp, "pristine", sum(p)), "error:pristine "+err.Error())
+				continue
+			}
+			want[sp] = w
+			vals[sp] = codecOfSpec(sp)
+		}
+		for round := 0; round < 3; round++ {
+			order := r.Perm(len(specs[kind]))
+			for _, i := range order {
+				sp := specs[kind][i]
+				if want[sp] == nil {
+					continue
+				}
+				emit(fmt.Sprintf("cfg %s round%d %s %s", sp, round, sum(p), sum(want[sp])), guard(func() string {
+					s, err := compressChunks(vals[sp], p, []int{len(p)})
+					if err != nil {
+						return "error:" + err.Error()
+					}
+					name := kind
+					if strings.HasSuffix(sp, ":1") && kind == "snappy" {
+						name = "snappy-unframed"
+					}
+					d, err := refDecode(name, s)
+					if err != nil {
+						return "error:not readable by the reference decoder: " + err.Error()
+					}
+					return "ok " + sum(d) + " " + sum(s)
+				}))
+			}
+		}
+	}
+}
+
 // readAllBounded is io.ReadAll that gives up on a reader making no progress (a broken reader must cost
 // seconds, not minutes).
 func readAllBounded(r io.Reader) ([]byte, error) {
@@ -553,6 +706,8 @@ func readAllBounded(r io.Reader) ([]byte, error) {
 // readers open per goroutine (objects then travel between goroutines through the pools' shared lists); every
 // stream must decode to its own payload.
 func stress(r *rand.Rand, cs []codecCase, G, iters int) {
+	// wall-clock budget per codec value: on a loaded machine fewer iterations are run instead of timing out
+	const budget = 3 * time.Second
 	for _, cc := range cs {
 		ps := make([][]byte, 4)
 		streams := make([][]byte, 4)
@@ -564,12 +719,13 @@ func stress(r *rand.Rand, cs []codecCase, G, iters int) {
 		var mu sync.Mutex
 		first := "none"
 		bad := 0
+		deadline := time.Now().Add(budget)
 		for g := 0; g < G; g++ {
 			wg.Add(1)
 			go func(g int) {
 				defer wg.Done()
 				res := guard(func() string {
-					for it := 0; it < iters; it++ {
+					for it := 0; it < iters && (it < 3 || time.Now().Before(deadline)); it++ {
 						// several readers open at once per goroutine, closed in a different order
 						i, j := (g+it)%4, (g+2*it+1)%4
 						r1 := cc.codec.NewReader(bytes.NewReader(streams[i]))
@@ -621,10 +777,14 @@ func main() {
 		rounds = 6
 	}
 	cs := codecs()
+	if len(os.Args) > 2 && os.Args[1] == "pristine" {
+		pristineMain(os.Args[2])
+		return
+	}
 	stressOnly := len(os.Args) > 1 && os.Args[1] == "stress"
 	if stressOnly {
 		// watchdog: whatever hangs, report what was observed so far
-		time.AfterFunc(45*time.Second, func() {
+		time.AfterFunc(60*time.Second, func() {
 			emit("stress watchdog 0", "timeout")
 			out.Flush()
 			os.Exit(3)
@@ -666,6 +826,48 @@ func main() {
 				}
 				emit(fmt.Sprintf("xw %d %d %s %s", fr, n, csv(chunks), gen.Hex(stream)), impl)
 			}
+		}
+		// --- xwf: io.Copy INTO the framed writer (xerialWriter.ReadFrom) from a scripted source: block partition = model's
+		for i := 0; i < 25; i++ {
+			n := sizes[r.Intn(len(sizes))]
+			p := payload(r, r.Intn(3), n)
+			sc, scs := genScript(r, n)
+			var buf bytes.Buffer
+			impl := guard(func() string {
+				w := (&snappy.Codec{}).NewWriter(&buf)
+				if _, err := io.Copy(w, &scriptSrc{data: p, script: sc}); err != nil {
+					return "error:" + err.Error()
+				}
+				if err := w.Close(); err != nil {
+					return "error:" + err.Error()
+				}
+				got, err := xerial.Decode(buf.Bytes())
+				if err != nil || !bytes.Equal(got, p) {
+					return "wrong-data"
+				}
+				res, _ := xerialBlocks(buf.Bytes())
+				return res
+			})
+			emit(fmt.Sprintf("xwf %d %s %s", n, scs, gen.Hex(buf.Bytes())), impl)
+		}
+		// --- xrt: io.Copy FROM the reader (xerialReader.WriteTo) over a scripted source
+		for i := 0; i < 25; i++ {
+			n := sizes[r.Intn(len(sizes))]
+			p := payload(r, r.Intn(3), n)
+			stream, _ := refEncode(r, "snappy", p)
+			if r.Intn(4) == 0 {
+				stream = refsnappy.Encode(nil, p)
+			}
+			sc, scs := genScript(r, len(stream))
+			emit(fmt.Sprintf("rt snappy-writeto k%s %s", "0", sum(p))+" s"+fmt.Sprint(len(scs)), guard(func() string {
+				rd := (&snappy.Codec{}).NewReader(&scriptSrc{data: stream, script: sc})
+				defer rd.Close()
+				var out bytes.Buffer
+				if _, err := io.Copy(&out, rd); err != nil {
+					return "error:" + err.Error()
+				}
+				return "ok " + sum(out.Bytes())
+			}))
 		}
 		// --- xr: reader Read-size sequences on reference streams
 		for i := 0; i < 40; i++ {
@@ -709,6 +911,54 @@ func main() {
 			fr := map[bool]int{true: 1, false: 0}[framed]
 			// an unframed raw block that happens to start with the xerial magic cannot be told apart: not generated
 			emit(fmt.Sprintf("xr %d %s %s", fr, csv(ulens), csv(asked)), impl)
+		}
+		// --- xrcut: framed reference streams that END EARLY (the source has only the first bytes): after m complete blocks
+		// the cut falls on the frame boundary (kind 0), inside the 4-byte length (kind 1..3 = bytes of it present), right
+		// after it (kind 4) or inside the block (kind 5); the Read return values must be the model's and the data a prefix
+		// of the payload
+		for i := 0; i < 24; i++ {
+			nb := 1 + r.Intn(4)
+			var frames [][]byte
+			var ulens []int
+			var whole []byte
+			for j := 0; j < nb; j++ {
+				n := []int{1, 7, 100, 5000, 32768, 40000}[r.Intn(6)]
+				p := payload(r, r.Intn(3), n)
+				blk := refsnappy.Encode(nil, p)
+				var l [4]byte
+				binary.BigEndian.PutUint32(l[:], uint32(len(blk)))
+				frames = append(frames, append(l[:], blk...))
+				ulens = append(ulens, n)
+				whole = append(whole, p...)
+			}
+			m := r.Intn(nb)
+			kind := r.Intn(6)
+			stream := []byte{0x82, 'S', 'N', 'A', 'P', 'P', 'Y', 0, 0, 0, 0, 1, 0, 0, 0, 1}
+			for j := 0; j < m; j++ {
+				stream = append(stream, frames[j]...)
+			}
+			switch {
+			case kind >= 1 && kind <= 3:
+				stream = append(stream, frames[m][:kind]...)
+			case kind == 4: // the length field and not one byte of the block
+				stream = append(stream, frames[m][:4]...)
+			case kind == 5: // the length field and a strict, non-empty part of the block
+				stream = append(stream, frames[m][:5+r.Intn(len(frames[m])-5)]...)
+			}
+			next := readSizes(r)
+			var asked []int
+			dst := func() int { n := next(); asked = append(asked, n); return n }
+			impl := guard(func() string {
+				got, ns, err := decompressChunks(&snappy.Codec{}, stream, func() int { return 1 + r.Intn(5000) }, dst)
+				if !bytes.HasPrefix(whole, got) {
+					return "wrong-data"
+				}
+				if err != nil {
+					ns = append(ns, 0) // the model's marker of an error: a second 0
+				}
+				return csv(ns)
+			})
+			emit(fmt.Sprintf("xrcut %s %d %d %s", csv(ulens), m, kind, csv(asked)), impl)
 		}
 		// --- rt / out / in
 		for _, cc := range cs {
@@ -768,8 +1018,10 @@ func main() {
 					src.failAt = k
 					got, _, err := decompressFrom(cc.codec, src, readSizes(r))
 					switch {
+					case err != nil && bytes.HasPrefix(p, got):
+						return "sound" // what was handed out before the error is a prefix of the payload (Props/C16 truncated_stream_prefix)
 					case err != nil:
-						return "sound"
+						return "unsound:wrong-data-before-the-error-" + sum(got)
 					case bytes.Equal(got, p):
 						return "sound"
 					}
@@ -813,6 +1065,8 @@ func main() {
 		} else {
 			stress(r, cs, 24, 40)
 		}
+		// --- cfg: several configurations of one codec kind interleaved
+		configs(r)
 		// --- hist: same stream through pooled objects after disturbances; output bytes and data identical to first use
 		for _, cc := range cs {
 			p := payload(r, 2, 50000+r.Intn(30000))
